@@ -10,7 +10,13 @@ Decided (necessary conditions):
       reloads from persisted ticks with the same run id, clears the marker and then delivers the tick;
   R3  DBOS ordering: idle event -> timer scheduled; received tick -> timer cancelled; timer -> sleep(idle_timeout) ->
       begin_release (stop when it fails) -> TickIdleRelease -> await result -> complete_release -> marker stored;
-      send to a released id -> _do_resume with the pending tick folded into the rebuilt state and the same run id.
+      send to a released id -> _do_resume with the pending tick folded into the rebuilt state and the same run id;
+  R4  liveness of the release timer, per idle mark: every reaction to WorkflowIdleEvent that stamps idle_since (in-process)
+      / every WorkflowIdleEvent (DBOS) is followed on every exception-free path by the start of a deferred release, and a
+      started deferred release reaches the release check on every exception-free path (no early return) -- or, in-process,
+      every outcome of the release check that declines because the marker is younger than idle_timeout starts another timer
+      that does.  "Skip when a sleeper for the run already exists" without re-arming on decline leaves the second idle period
+      of a run (idle -> event -> idle) without any timer that looks at it after its own idle_timeout.
 
 Not decided: that the reloaded run continues exactly where it stopped (C12 / C13 / C14), real elapsed time, DBOS and
 database semantics, what happens to timers of the released run.
@@ -21,7 +27,7 @@ from __future__ import annotations
 import ast
 
 from ..astx import atoms, call_name, dotted, enclosing_stmt, expand, facts_at, kwarg, last, reaching_def
-from ..cfg import CFG
+from ..cfg import CFG, exprs_in_node
 from ..index import AnchorError, FuncNode, enclosing_function, qualname_of, walk_shallow
 from ..selftest import Twin
 from .c26 import (  # shared helpers live in c26.py (the brief forbids new shared files under sa/)
@@ -49,6 +55,15 @@ EXPLANATION = (
     "R2/R3: control-flow ordering obligations (dominance / must-pass on the statement CFG, exception edges excluded) for the in-process "
     "and DBOS release and reload paths, with the timeout comparison normalised (`elapsed < timeout` must be false at the release act) "
     "and the sleep bound to the decorator's idle_timeout constructor parameter. "
+    "R4 (liveness by construction, both stacks): a timer looks at the run for every idle mark.  Decided on the statement CFG without exception / cancellation edges: "
+    "(a) in-process, from every statement that stores a non-None idle_since in the internal adapter's write_to_event_stream, every path to the exit starts `_deferred_release` "
+    "(outcomes of other tests that contradict the guards of the mark are excluded); DBOS, every path through write_to_event_stream on which the event is a WorkflowIdleEvent "
+    "calls `_schedule_deferred_release`; (b) every path through `_deferred_release` from entry to exit evaluates a call of `_release_idle_handler` (directly or through a method "
+    "of the decorator that itself always does, two levels) -- a deferred release that returns early because of state left by an earlier mark never examines its own mark; "
+    "(c) in-process only, accepted instead of (b): in `_release_idle_handler` every path that leaves through the `elapsed < idle_timeout` (too early) outcome starts / awaits a "
+    "method of the decorator that always reaches the release check.  DBOS has no age test in its release check (the timer is cancelled and re-armed per tick), so only (a)+(b) apply. "
+    "Not decided by R4: that the re-armed timer sleeps long enough (R2/R3 bind the first sleep), early returns that could be justified by a proof that a newer live timer exists (reported), "
+    "whether `_schedule_deferred_release` may keep a live older timer (harmless on DBOS because every received tick cancels it). "
     "Not decided: equality of the resumed execution (C12-C14), timer accuracy, DBOS / database semantics."
 )
 TRUSTED = ["CPython ast", "asyncio.sleep / task scheduling", "DBOS workflow completion", "SQL semantics of INSERT / UPDATE … WHERE"]
@@ -252,6 +267,141 @@ def _sleep_then_release(chk, rule: str, m, deco: ast.ClassDef, stack: str) -> No
         ok = bool(sleeps) and _must_precede(cfg, dr, [enclosing_stmt(s) for s in sleeps], enclosing_stmt(c))
         chk.ob(rule, f"[{stack}] the deferred release waits `self.{tattr}` (= idle_timeout) before it tries to release", ok, m=m, node=c, fn=dr,
                instance="timer:sleep-idle-timeout", reason=f"_release_idle_handler is reachable without `await asyncio.sleep(self.{tattr})` (released earlier than the idle timeout)")
+
+
+# ======================================================================================= R4 (a timer for every idle mark)
+
+_RELEASE = "_release_idle_handler"
+_NORMAL = ("exc", "cancel")
+
+
+def _examining_nodes(deco: ast.ClassDef, fn: ast.AST, cfg: CFG, depth: int, seen: frozenset) -> list:
+    """CFG nodes of `fn` that evaluate a call of the release check, or of a method of `deco` (called, awaited or handed
+    as a coroutine to a spawner) every exception-free path of which reaches the release check."""
+    out = []
+    for n in cfg.nodes:
+        for x in exprs_in_node(n):
+            if not isinstance(x, ast.Call):
+                continue
+            nm = last(call_name(x)) or ""
+            if nm == _RELEASE:
+                out.append(n)
+                break
+            g = method(deco, nm)
+            if g is not None and g is not fn and depth > 0 and _always_examines(deco, g, depth - 1, seen):
+                out.append(n)
+                break
+    return out
+
+
+def _always_examines(deco: ast.ClassDef, fn: ast.AST, depth: int = 2, seen: frozenset = frozenset()) -> bool:
+    """Every exception-free path from the entry of `fn` to its exit evaluates the release check."""
+    if id(fn) in seen:
+        return False
+    seen = seen | {id(fn)}
+    cfg = CFG(fn)
+    hits = _examining_nodes(deco, fn, cfg, depth, seen)
+    return bool(hits) and cfg.exit not in cfg.reach([cfg.entry], blocked=hits, labels_excluded=_NORMAL)
+
+
+def _decline_rearms(m, deco: ast.ClassDef, tattr: str) -> tuple[int, bool]:
+    """(number of too-early outcomes in the release check, every one of them is followed on all exception-free paths to
+    the exit by the start of a timer that always reaches the release check)."""
+    rel = need_method(m, deco, _RELEASE)
+    cfg = CFG(rel)
+    edges = []
+    for o in cfg.nodes:
+        if o.kind != "test" or not hasattr(o.ast, "test"):
+            continue
+        for lab in ("T", "F"):
+            fs = set(atoms(o.ast.test, lab == "T")) | set(atoms(expand(o.ast.test, o.ast), lab == "T"))
+            if any((pol and t.endswith(f"< self.{tattr}")) or (not pol and t.startswith(f"self.{tattr} <")) for t, pol in fs):
+                edges.append((o, lab))
+    rearm = _examining_nodes(deco, rel, cfg, 2, frozenset({id(rel)}))
+    rearm = [n for n in rearm if not any(isinstance(x, ast.Call) and last(call_name(x)) == _RELEASE for x in exprs_in_node(n))]
+    ok = bool(edges)
+    for o, lab in edges:
+        starts = [t for l2, t in cfg.succ[o] if l2 == lab]
+        if cfg.exit in starts or cfg.exit in cfg.reach(starts, blocked=rearm, labels_excluded=_NORMAL):
+            ok = False
+    return len(edges), ok
+
+
+def _spawns_of(fn: ast.AST, name: str) -> list[ast.Call]:
+    return [c for c in ast.walk(fn) if isinstance(c, ast.Call) and any(isinstance(a, ast.Call) and last(call_name(a)) == name for a in c.args)]
+
+
+def _idle_atom(cfg: CFG, stmt: ast.AST) -> str | None:
+    """Normalised text of the fact `isinstance(<x>, WorkflowIdleEvent)` known true at `stmt`."""
+    for n in cfg.nodes_of(stmt):
+        for txt, pol in facts_at(cfg, n):
+            if pol and txt.startswith("isinstance(") and "WorkflowIdleEvent" in txt:
+                return txt
+    return None
+
+
+def rule_r4(chk) -> None:
+    repo = chk.repo
+    n_sites = 0
+    # ---------------- in-process
+    m, deco, _ext, internal = _decorator_and_adapter(repo, SRV, "IdleReleaseDecorator")
+    if internal is None:
+        raise AnchorError("C36.R4: IdleReleaseDecorator.get_internal_adapter builds no adapter class of its module")
+    w = need_method(m, internal, "write_to_event_stream")
+    cfg = CFG(w)
+    marks = [c for c in _stmt_calls(w, "update_handler_status") if kwarg(c, "idle_since") is not None and not (isinstance(kwarg(c, "idle_since"), ast.Constant) and kwarg(c, "idle_since").value is None)]
+    spawns = _spawns_of(w, "_deferred_release")
+    if not spawns:
+        raise AnchorError(f"C36.R4: {internal.name}.write_to_event_stream does not spawn _deferred_release")
+    if not marks:  # nothing to quantify over; C36.R2 (mark-before-timer) reports the missing marker
+        n_sites += 1
+        chk.observe("C36.R4: write_to_event_stream of the in-process adapter stores no idle marker; see C36.R2")
+    spawn_nodes = [n for c in spawns for n in cfg.nodes_of(enclosing_stmt(c))]
+    for c in marks:
+        n_sites += 1
+        ok = True
+        for mn in cfg.nodes_of(enclosing_stmt(c)):
+            r = cfg.reach([mn], blocked=spawn_nodes, blocked_edges=_consistent_blocked(cfg, mn, w), labels_excluded=_NORMAL, include_starts=False)
+            ok = ok and cfg.exit not in r
+        chk.ob("C36.R4", "[in-process] every idle mark (idle_since stored on WorkflowIdleEvent) is followed by the start of its own deferred release", ok, m=m, node=c, fn=w,
+               instance="idle-mark:timer-follows",
+               reason="a path stores idle_since and leaves write_to_event_stream without spawning _deferred_release: when an older sleeper wakes it finds the newer marker too young, "
+                      "declines, and no timer is left for this idle period (idle -> event -> idle is never released)")
+    tattr = _timeout_attr(m, deco)
+    dr = need_method(m, deco, "_deferred_release")
+    n_sites += 1
+    direct = _always_examines(deco, dr)
+    n_decl, rearmed = (0, False) if direct else _decline_rearms(m, deco, tattr)
+    chk.ob("C36.R4", "[in-process] a started deferred release always reaches the release check (or a declined check re-arms a timer)", direct or rearmed, m=m, node=dr, fn=dr,
+           instance="timer:always-examines",
+           reason=f"_deferred_release can return without calling {_RELEASE} (an early return that depends on state left by an earlier idle mark), and the {n_decl} too-early outcome(s) "
+                  f"`elapsed < self.{tattr}` of {_RELEASE} return without starting another timer: idle at t0, event at t0+0.3T, idle again -> the new deferred release returns at once, "
+                  "the old sleeper wakes at t0+T, sees a marker 0.7T old, declines, and nothing examines the run again: it is never released")
+    # ---------------- DBOS
+    md, ddeco, _dext, dinternal = _decorator_and_adapter(repo, DBI, "DBOSIdleReleaseDecorator")
+    if dinternal is None:
+        raise AnchorError("C36.R4: DBOSIdleReleaseDecorator.get_internal_adapter builds no adapter class of its module")
+    dw = need_method(md, dinternal, "write_to_event_stream")
+    dcfg = CFG(dw)
+    sch = _stmt_calls(dw, "_schedule_deferred_release")
+    if not sch:
+        raise AnchorError(f"C36.R4: {dinternal.name}.write_to_event_stream does not schedule the deferred release")
+    idle = next((a for a in (_idle_atom(dcfg, enclosing_stmt(c)) for c in sch) if a), None)
+    n_sites += 1
+    if idle is None:
+        ok = False  # R3 reports the missing isinstance guard; without it there is no "idle path" to quantify over
+    else:
+        reassigned = _reassigned_names(dw)
+        not_idle = [(o, lab) for o in dcfg.nodes if o.kind == "test" and hasattr(o.ast, "test") for lab in ("T", "F") if (idle, False) in _stable_atoms(o.ast, lab == "T", reassigned)]
+        r = dcfg.reach([dcfg.entry], blocked=[n for c in sch for n in dcfg.nodes_of(enclosing_stmt(c))], blocked_edges=not_idle, labels_excluded=_NORMAL)
+        ok = bool(not_idle) and dcfg.exit not in r
+    chk.ob("C36.R4", "[dbos] every WorkflowIdleEvent schedules a deferred release", ok, m=md, node=sch[0], fn=dw, instance="idle-event:always-schedules",
+           reason="a path on which the event is a WorkflowIdleEvent leaves write_to_event_stream without _schedule_deferred_release: the previous timer was cancelled by the received tick, so this idle period has no timer")
+    ddr = need_method(md, ddeco, "_deferred_release")
+    n_sites += 1
+    chk.ob("C36.R4", "[dbos] a started deferred release always reaches the release check", _always_examines(ddeco, ddr), m=md, node=ddr, fn=ddr, instance="timer:always-examines",
+           reason=f"_deferred_release can return without calling {_RELEASE}: the timer armed for this idle period (the only one: scheduling cancels the previous) never attempts the release")
+    chk.floor("C36.R4", "idle marks / deferred-release timers examined (in-process mark, in-process timer, DBOS idle event, DBOS timer)", n_sites, 4)
 
 
 # ======================================================================================= R1
@@ -538,6 +688,7 @@ def run(chk) -> None:
     rule_r1(chk)
     rule_r2(chk)
     rule_r3(chk)
+    rule_r4(chk)
 
 
 # ======================================================================================= twins
@@ -553,6 +704,12 @@ _W_MARK = ("        if isinstance(event, WorkflowIdleEvent):\n            idle_s
            "                self.run_id, status=\"running\", idle_since=idle_since\n            )\n            self._marked_idle = True\n")
 _W_SPAWN = "        self._runtime._spawn_task(self._runtime._deferred_release(self.run_id))\n"
 _W_OLD = _W_MARK + "        await super().write_to_event_stream(event)\n        if isinstance(event, WorkflowIdleEvent):\n    " + _W_SPAWN
+
+_DR_OLD = "        await asyncio.sleep(self._idle_timeout)\n        await self._release_idle_handler(run_id)\n"
+_DECLINE = "            if elapsed < self._idle_timeout:\n                return\n"
+_DR_TO_DECLINE = (_DR_OLD + "\n    async def _release_idle_handler(self, run_id: str) -> None:\n        \"\"\"Release an idle handler from memory.\"\"\"\n        async with self._reload_lock(run_id):\n"
+                  "            handlers = await self._store.query(HandlerQuery(run_id_in=[run_id]))\n            if len(handlers) != 1 or handlers[0].idle_since is None:\n                return\n"
+                  "            elapsed = (\n                datetime.now(timezone.utc) - handlers[0].idle_since\n            ).total_seconds()\n" + _DECLINE)
 
 TWINS = [
     # ---- R1
@@ -593,6 +750,33 @@ TWINS = [
     Twin("R2 benign: nested-if release", _SRV, "            if run_id not in self._active_run_ids:\n                return\n            self._active_run_ids.discard(run_id)\n            self._abort_inner_run(run_id)\n            logger.info(f\"Released idle handler [run_id={run_id}] from memory\")\n",
          "            if run_id in self._active_run_ids:\n                self._active_run_ids.discard(run_id)\n                self._abort_inner_run(run_id)\n                logger.info(f\"Released idle handler [run_id={run_id}] from memory\")\n", None),
     Twin("R2 benign: timeout bound to a local", _SRV, "        await asyncio.sleep(self._idle_timeout)\n        await self._release_idle_handler(run_id)\n", "        delay = self._idle_timeout\n        await asyncio.sleep(delay)\n        await self._release_idle_handler(run_id)\n", None),
+    # ---- R4
+    Twin("R4 seed form: one sleeper per run, later deferred releases return at once", _SRV, _DR_OLD,
+         "        if run_id in self._background_pending:\n            return\n        self._background_pending.add(run_id)\n        try:\n    " + _DR_OLD.replace("\n        await self._release", "\n            await self._release")
+         + "        finally:\n            self._background_pending.discard(run_id)\n", "C36.R4"),
+    Twin("R4 variant: early return after the sleep when the marker looks newer than this sleeper", _SRV, _DR_OLD,
+         "        armed_at = datetime.now(timezone.utc)\n        await asyncio.sleep(self._idle_timeout)\n        if self._last_mark.get(run_id, armed_at) > armed_at:\n            return\n        await self._release_idle_handler(run_id)\n", "C36.R4"),
+    Twin("R4 variant: de-duplication at the spawn site (second idle mark gets no timer)", _SRV,
+         "        if isinstance(event, WorkflowIdleEvent):\n    " + _W_SPAWN,
+         "        if isinstance(event, WorkflowIdleEvent) and self.run_id not in self._runtime._sleeping:\n            self._runtime._sleeping.add(self.run_id)\n    " + _W_SPAWN, "C36.R4"),
+    Twin("R4 dbos: timer armed only for the first idle event of a run", _DBI,
+         "        if isinstance(event, WorkflowIdleEvent):\n            self._runtime._schedule_deferred_release(self.run_id)\n",
+         "        if isinstance(event, WorkflowIdleEvent) and not getattr(self, \"_armed\", False):\n            self._armed = True\n            self._runtime._schedule_deferred_release(self.run_id)\n", "C36.R4"),
+    Twin("R4 seed form whose decline re-spawns the same de-duplicated sleeper (still pending: returns at once)", _SRV, _DR_TO_DECLINE,
+         _DR_TO_DECLINE.replace(_DR_OLD, "        if run_id in self._background_pending:\n            return\n        self._background_pending.add(run_id)\n        try:\n    "
+                                + _DR_OLD.replace("\n        await self._release", "\n            await self._release") + "        finally:\n            self._background_pending.discard(run_id)\n")
+         .replace(_DECLINE, "            if elapsed < self._idle_timeout:\n                self._spawn_task(self._deferred_release(run_id))\n                return\n"), "C36.R4"),
+    Twin("R4 benign: bookkeeping around the sleeper in try/finally, no early return", _SRV, _DR_OLD,
+         "        logger.debug(f\"release timer armed [run_id={run_id}]\")\n        try:\n    " + _DR_OLD.replace("\n        await self._release", "\n            await self._release")
+         + "        finally:\n            logger.debug(f\"release timer done [run_id={run_id}]\")\n", None),
+    Twin("R4 benign: one sleeper per run, but a declined check re-arms a timer for the remainder", _SRV, _DR_TO_DECLINE,
+         _DR_TO_DECLINE.replace(_DR_OLD, "        if run_id in self._background_pending:\n            return\n        self._background_pending.add(run_id)\n        try:\n    "
+                                + _DR_OLD.replace("\n        await self._release", "\n            await self._release") + "        finally:\n            self._background_pending.discard(run_id)\n\n"
+                                "    async def _release_later(self, run_id: str, delay: float) -> None:\n        await asyncio.sleep(delay)\n        await self._release_idle_handler(run_id)\n")
+         .replace(_DECLINE, "            if elapsed < self._idle_timeout:\n                self._spawn_task(self._release_later(run_id, self._idle_timeout - elapsed))\n                return\n"), None),
+    Twin("R4 benign (dbos): idle test in a local, early return for other events", _DBI,
+         "        if isinstance(event, WorkflowIdleEvent):\n            self._runtime._schedule_deferred_release(self.run_id)\n",
+         "        went_idle = isinstance(event, WorkflowIdleEvent)\n        if not went_idle:\n            return\n        self._runtime._schedule_deferred_release(self.run_id)\n", None),
     # ---- R3
     Twin("R3 schedule on every event", _DBI, "        if isinstance(event, WorkflowIdleEvent):\n            self._runtime._schedule_deferred_release(self.run_id)\n", "        self._runtime._schedule_deferred_release(self.run_id)\n", "C36.R3"),
     Twin("R3 received tick does not cancel", _DBI, "        if isinstance(result, WaitResultTick):\n            self._runtime._cancel_deferred_release(self.run_id)\n", "        if isinstance(result, WaitResultTick):\n            pass\n", "C36.R3"),
